@@ -1927,11 +1927,19 @@ class FuncVerifier(object):
         spec = self.region_spec(av, sl, st, node)
         shape = tuple(hi - lo for (kind, *r) in spec if kind == 's' for (lo, hi) in [r])
         scalar = None
+        bcast1 = None
         if isinstance(val, (Ref, View, AV)):
             src = self.deref(val, st)
             if src.ndim != len(shape):
                 raise OutOfFragment('rank mismatch in region assignment', node)
-            self.oblige(st, self.site(node, 'shape'), z3.And(*[a == b for a, b in zip(shape, src.shape)]), node)
+            if 'ValueError' in self.c.may_raise and not self.inline_depth and len(shape) == 1 and len(spec) == 1:
+                # a[lo:hi] = v on a 1-D array in a function whose contract allows ValueError (partial correctness): numpy raises ValueError
+                # unless the lengths agree or v has exactly one element (which is then broadcast over the slice, possibly an empty one);
+                # the path continues under that condition and the broadcast is modelled
+                st.pc.append(z3.Or(src.shape[0] == shape[0], src.shape[0] == 1))
+                bcast1 = src.shape[0] == 1
+            else:
+                self.oblige(st, self.site(node, 'shape'), z3.And(*[a == b for a, b in zip(shape, src.shape)]), node)
         else:
             scalar = self.coerce_elem(val, av.elem, node)
         # leading integer indices select a sub-array that is replaced by a Store (all other sub-arrays stay syntactically the
@@ -1955,7 +1963,7 @@ class FuncVerifier(object):
             else:
                 inside.append(z3.And(item[1] <= k_, k_ < item[2]))
                 if sv is not None:
-                    sv = z3.Select(sv, k_ - item[1])
+                    sv = z3.Select(sv, z3.If(bcast1, z3.IntVal(0), k_ - item[1]) if (scalar is None and bcast1 is not None) else k_ - item[1])
         rhs = scalar if scalar is not None else sv
         st.pc.append(z3.ForAll(ks, nw == z3.If(z3.And(*inside), rhs, o), patterns=[nw]))
         st.heap[base.loc] = AV(store_nd(av.term, lead, new) if lead else new, av.shape, av.elem)
@@ -2517,6 +2525,15 @@ class FuncVerifier(object):
         if short == 'empty_like':
             src = self.deref(self.pev(n.args[0], st), st)
             return st.alloc(fresh_array('empty', src.ndim, src.elem, src.shape))
+        if short == 'flipud' and len(n.args) == 1:
+            src = self.deref(self.pev(n.args[0], st), st)
+            if src.ndim != 2:
+                raise OutOfFragment('flipud of a non-2-D array', n)
+            res = fresh('flipud', src.term.sort())
+            k_ = fresh('k', I)
+            st.pc.append(z3.ForAll([k_], z3.Implies(z3.And(0 <= k_, k_ < src.shape[0]), z3.Select(res, k_) == z3.Select(src.term, src.shape[0] - 1 - k_)),
+                                   patterns=[z3.Select(res, k_)]))            # rows in reverse order (numpy returns a view; it is only read here)
+            return st.alloc(AV(res, src.shape, src.elem))
         if short == 'eye':
             nn = as_num(self.pev(n.args[0], st))
             i, j = fresh('i', I), fresh('j', I)
